@@ -852,6 +852,7 @@ func smtName(n string) string {
 type ScriptOpts struct {
 	IntVars   map[string]bool
 	IntBound  int64 // if >0, |v| <= bound for IntVars
+	IntScale  uint  // if >0, an IntVar v stands for v / 2^IntScale (dyadic rationals)
 	GetValues []*Term
 	Timeout   int // ms, 0 = none (set by caller through -T)
 }
@@ -892,6 +893,9 @@ func Script(asserts []*Term, opts ScriptOpts) string {
 			return fmt.Sprintf("(_ bv%d %d)", t.bv, t.bvw)
 		case "var":
 			if opts.IntVars != nil && opts.IntVars[t.name] && t.sort == SReal {
+				if opts.IntScale > 0 {
+					return "(/ (to_real " + smtName(t.name) + ") " + new(big.Int).Lsh(big.NewInt(1), opts.IntScale).String() + ".0)"
+				}
 				return "(to_real " + smtName(t.name) + ")"
 			}
 			return smtName(t.name)
